@@ -60,16 +60,21 @@ static std::vector<SpinFault> g_spin_faults;  // read-only during a run
 static std::atomic<int> g_premature_ready{0};
 static std::atomic<int> g_witness_runs{0};
 
+// The snapshot reads the state byte atomically; in the TSan build that access is itself a
+// schedule point (atomwrap.cpp), which must not recurse into the scheduler from here.
 static uint8_t table_state() {
   uint8_t st;
   const void* p[19];
+  bool q = tl_quiet;
+  tl_quiet = true;
   ada::idna::verif_tables_snapshot(&st, p);
+  tl_quiet = q;
   return st;
 }
 
 static void yield_fn(int site) {
   if (tl_tid < 0 || tl_quiet) return;
-  uint32_t aux = (site <= T_ALLOC_PROBE) ? table_state() : 0;
+  uint32_t aux = (site <= T_ALLOC_PROBE || site == A_ATOMIC8) ? table_state() : 0;
   sch_yield(tl_tid, site, aux);
 }
 static uint64_t spin_fn(int) {
@@ -91,7 +96,9 @@ static void monitor(int, int) {
   if (tl_quiet) return;
   uint8_t st;
   const void* p[19];
+  tl_quiet = true;
   ada::idna::verif_tables_snapshot(&st, p);
+  tl_quiet = false;
   if (st != 2) return;  // not READY
   bool bad = false;
   const char* base = static_cast<const char*>(p[0]);
@@ -414,7 +421,7 @@ static Result execute(const Plan& p, Stats& st) {
     uint32_t w[3] = {ev[i].tid, ev[i].site, ev[i].aux};
     h = fnv1a(std::string_view(reinterpret_cast<const char*>(w), sizeof w), h);
     int s = ev[i].site;
-    if (s <= T_ALLOC_PROBE || s == LIM_GET || s == LIM_SET) {
+    if (s <= T_ALLOC_PROBE || s == A_ATOMIC8 || s == LIM_GET || s == LIM_SET) {
       uint32_t v[2] = {ev[i].tid, ev[i].site};
       shared_sig = fnv1a(std::string_view(reinterpret_cast<const char*>(v), sizeof v), shared_sig);
     }
